@@ -285,6 +285,8 @@ func runC20(p *Program, r *Result) {
 		}
 		r.Check(bad == "" && len(e.Globals) == 0, fn.String(), "writes", "", "only freshly allocated memory is written (plus the label sort of R20.5)", "shared memory is written: "+bad)
 	}
+	r.Rule("R20.8", "Unwrap and Wrap write nothing reachable from their arguments: a stanza list or file key shared by concurrent callers stays as it is (= R01.16)", 8)
+	checkArgsUntouched(p, r)
 	r.Rule("R20.7", "no package-level state behind Encrypt, Decrypt and the STREAM constructors: concurrent operations share nothing mutable", 1)
 	checkNoPackageState(p, r, []*ssa.Function{r.anchor(pkgAge, "", "Encrypt"), r.anchor(pkgAge, "", "Decrypt"), r.anchor(pkgStream, "", "NewWriter"), r.anchor(pkgStream, "", "NewReader"),
 		r.anchor(pkgStream, "Writer", "Write"), r.anchor(pkgStream, "Writer", "Close"), r.anchor(pkgStream, "Reader", "Read")}, nil)
